@@ -136,7 +136,11 @@ def finish(ctx: Ctx, level: str, coverage: dict, violations, assumptions, extra_
     for sig, vs in sorted(by_sig.items()):
         (listed if sig in known else new).append((sig, vs))
     os.makedirs(os.path.join(VERIF, "replays"), exist_ok=True)
-    os.makedirs(os.path.join(VERIF, "evidence"), exist_ok=True)
+    # evidence under /verif/evidence only ever describes /repo itself; runs against a scratch tree (VERIF_REPO, used to
+    # evaluate seeded changes) leave theirs under /tmp
+    evdir = os.environ.get("VERIF_EVIDENCE_DIR") or (
+        os.path.join(VERIF, "evidence") if os.path.realpath(REPO) == "/repo" else "/tmp/pvmc-scratch-evidence")
+    os.makedirs(evdir, exist_ok=True)
     lines = []
     for sig, vs in listed:
         lines.append(f"KNOWN-FINDING: property={ctx.prop} {sig} {known[sig][1]} ({len(vs)} cases)")
@@ -165,7 +169,7 @@ def finish(ctx: Ctx, level: str, coverage: dict, violations, assumptions, extra_
     ev = dict(property_id=ctx.prop, tier=ctx.tier, seed=ctx.seed, level=level,
               coverage=jsonable(cov), assumptions=list(assumptions),
               wall_s=round(time.time() - ctx.t0, 3), violations=sum(len(vs) for _, vs in new))
-    with open(os.path.join(VERIF, "evidence", f"{ctx.prop}.json"), "w") as f:
+    with open(os.path.join(evdir, f"{ctx.prop}.json"), "w") as f:
         json.dump(ev, f, indent=1, sort_keys=True)
         f.write("\n")
     for ln in lines:
